@@ -147,8 +147,9 @@ func (dw *DeltaSelector) fixAndBreakChains(objectsToPack []*ObjectToPack) error 
 		m[otp.Hash()] = otp
 	}
 
+	visiting := make(map[*ObjectToPack]struct{})
 	for _, otp := range objectsToPack {
-		if err := dw.fixAndBreakChainsOne(m, otp); err != nil {
+		if err := dw.fixAndBreakChainsOne(m, otp, visiting); err != nil {
 			return err
 		}
 	}
@@ -156,7 +157,9 @@ func (dw *DeltaSelector) fixAndBreakChains(objectsToPack []*ObjectToPack) error 
 	return nil
 }
 
-func (dw *DeltaSelector) fixAndBreakChainsOne(objectsToPack map[plumbing.Hash]*ObjectToPack, otp *ObjectToPack) error {
+// fixAndBreakChainsOne gives otp its base, fixing the base first. visiting
+// holds the entries whose base is being fixed further up the call chain.
+func (dw *DeltaSelector) fixAndBreakChainsOne(objectsToPack map[plumbing.Hash]*ObjectToPack, otp *ObjectToPack, visiting map[*ObjectToPack]struct{}) error {
 	if !otp.Object.Type().IsDelta() {
 		return nil
 	}
@@ -182,7 +185,16 @@ func (dw *DeltaSelector) fixAndBreakChainsOne(objectsToPack map[plumbing.Hash]*O
 		return dw.undeltify(otp)
 	}
 
-	if err := dw.fixAndBreakChainsOne(objectsToPack, base); err != nil {
+	// Deltas taken from different packs can form a cycle (P stored on Q in
+	// one pack, Q on P in another): break it at the entry that closes it.
+	visiting[otp] = struct{}{}
+	defer delete(visiting, otp)
+
+	if _, cycle := visiting[base]; cycle {
+		return dw.undeltify(otp)
+	}
+
+	if err := dw.fixAndBreakChainsOne(objectsToPack, base, visiting); err != nil {
 		return err
 	}
 
